@@ -170,6 +170,65 @@ impl<T> MerkleReg<T> {
     }
 //@end
 
+//@extract fn src/merkle_reg.rs "MerkleReg" all_nodes
+    pub fn all_nodes(&self) -> /*@ (r: @*/ impl Iterator<Item = &Node<T>> /*@ ) @*/
+    //@ ensures
+    //@     // every visible node once, in hash order
+    //@     hash_ok() ==> exists|ks: Seq<Hash>| ks.no_duplicates() && ks.to_set() == self.dg().dom() && #[trigger] r.remaining() == ks.map(|i: int, k: Hash| &self.dg()[k]),
+    {
+        //@ let v =
+        self.dag.values()
+        //@ ; proof { if hash_ok() { let m = self.dag@; let ks = choose|ks: Seq<Hash>| vstd::std_specs::btree::increasing_seq(ks) && ks.to_set() == m.dom() && ks.no_duplicates() && v.remaining() == ks.map(|i: int, k: Hash| &m[k]); assert(ks.no_duplicates() && ks.to_set() == self.dg().dom() && v.remaining() == ks.map(|i: int, k: Hash| &self.dg()[k])); } }
+        //@ v
+    }
+//@end
+
+//@extract fn src/merkle_reg.rs "MerkleReg" children
+    pub fn children(&self, hash: Hash) -> /*@ (r: @*/ Content<T> /*@ ) @*/
+    //@ requires hash_ok(),
+    //@ ensures
+    //@     // C15 observation: the visible children of a VISIBLE node; nothing for an orphan or an unknown hash
+    //@     forall|h: Hash| #[trigger] r.nd().contains_key(h) <==> self.dg().contains_key(hash) && self.dg()[hash].children@.contains(h) && self.dg().contains_key(h),
+    //@     forall|h: Hash| #[trigger] r.nd().contains_key(h) ==> *r.nd()[h] == self.dg()[h],
+    {
+        let nodes = self.dag.get(&hash).map(|node /*@ : &Node<T> @*/ | /*@ -> (o: BTreeMap<Hash, &Node<T>>) requires hash_ok() ensures (forall|h: Hash| #[trigger] o@.contains_key(h) <==> node.children@.contains(h) && self.dag@.contains_key(h)), (forall|h: Hash| #[trigger] o@.contains_key(h) ==> *o@[h] == self.dag@[h]) @*/ {
+            /*@ shim_btreeset_copied_filter_map_collect(& @*/ node.children
+                /*@<*/ .iter()
+                .copied()
+                .filter_map( /*@>*/ /*@ , @*/ |child /*@ : Hash @*/ | /*@ -> (q: Option<(Hash, &Node<T>)>) requires hash_ok() ensures (q is Some <==> self.dag@.contains_key(child)), (q is Some ==> (q->0).0 == child && *(q->0).1 == self.dag@[child]) { @*/ self.dag.get(&child).map(|node /*@ : &Node<T> @*/ | /*@ -> (p: (Hash, &Node<T>)) ensures p == (child, node) { @*/ (child, node) /*@ } @*/ ) /*@ } @*/ )
+                /*@<*/ .collect() /*@>*/
+        });
+
+        Content {
+            nodes: /*@ shim_option_btreemap_unwrap_or_default( @*/ nodes /*@ ) @*/ /*@<*/ .unwrap_or_default() /*@>*/ ,
+        }
+    }
+//@end
+
+//@extract fn src/merkle_reg.rs "MerkleReg" parents
+    pub fn parents(&self, hash: Hash) -> /*@ (r: @*/ Content<T> /*@ ) @*/
+    //@ requires hash_ok(),
+    //@ ensures
+    //@     // C15 observation: the visible nodes that list `hash` as a child
+    //@     forall|h: Hash| #[trigger] r.nd().contains_key(h) <==> self.dg().contains_key(h) && self.dg()[h].children@.contains(hash),
+    //@     forall|h: Hash| #[trigger] r.nd().contains_key(h) ==> *r.nd()[h] == self.dg()[h],
+    {
+        let parents = /*@ shim_btreemap_iter_filter_map_collect(& @*/ self
+            .dag
+            /*@<*/ .iter()
+            .filter_map( /*@>*/ /*@ , @*/ | /*@ e: (&Hash, &Node<T>) @*/ /*@<pp*/ (h, node) /*@>*/ | /*@ -> (q: Option<(Hash, &Node<T>)>) requires hash_ok() ensures (q is Some <==> e.1.children@.contains(hash)), (q is Some ==> (q->0).0 == *e.0 && (q->0).1 == e.1) { let $pp = e; @*/ {
+                if node.children.contains(&hash) {
+                    Some((*h, node))
+                } else {
+                    None
+                }
+            } /*@ } @*/ )
+            /*@<*/ .collect() /*@>*/ ;
+
+        Content { nodes: parents }
+    }
+//@end
+
 //@extract fn src/merkle_reg.rs "MerkleReg" num_nodes
     pub fn num_nodes(&self) -> /*@ (r: @*/ usize /*@ ) @*/
     //@ ensures hash_ok() ==> r == self.dg().len(),
